@@ -50,11 +50,11 @@ func (c *captureSwarm) Receive(ctx context.Context, fn func(p2p.Message[Addr])) 
 	vchan.RecvExt(ctx.Done())
 	return ctx.Err()
 }
-func (c *captureSwarm) LocalAddrs() []Addr                { return []Addr{c.local} }
-func (c *captureSwarm) MTU() int                          { return c.mtu }
-func (c *captureSwarm) Close() error                      { return nil }
-func (c *captureSwarm) ParseAddr(x []byte) (Addr, error)  { return memswarm.ParseAddr(x) }
-func (c *captureSwarm) PublicKey() string                 { return "k" }
+func (c *captureSwarm) LocalAddrs() []Addr               { return []Addr{c.local} }
+func (c *captureSwarm) MTU() int                         { return c.mtu }
+func (c *captureSwarm) Close() error                     { return nil }
+func (c *captureSwarm) ParseAddr(x []byte) (Addr, error) { return memswarm.ParseAddr(x) }
+func (c *captureSwarm) PublicKey() string                { return "k" }
 func (c *captureSwarm) LookupPublicKey(ctx context.Context, a Addr) (string, error) {
 	return "k", nil
 }
@@ -122,12 +122,12 @@ type ledger struct {
 func led(x *vrt.Exec) *ledger { return x.Data.(*ledger) }
 
 type cfg struct {
-	layer    string // frag | mbapp
-	innerMTU int
-	msgs     []message // Src is 1 or 2
-	workers  int
+	layer       string // frag | mbapp
+	innerMTU    int
+	msgs        []message // Src is 1 or 2
+	workers     int
 	reorderCost bool // choosing a fragment other than the oldest costs a deviation
-	db       int
+	db          int
 }
 
 func (c cfg) name() string {
